@@ -433,23 +433,31 @@ def r10(ctx):
     rets = [p_ for p_ in pi if p_.end == "return"]
     ok_ret = bool(rets) and all(any(k.startswith("Eq(index(") and v is True for k, v in p_.cond.items()) or any(k.startswith("disc(branch(required_node") for k in p_.cond) for p_ in rets)
     ctx.check(P, rule, "the descent ends at the leaf", ok_ret, "returns only under iter.index() == index (or on a node error)", "a return of the descent is not under iter.index() == index", key="C01|C01.R10|byte_offset_from_nodes|end")
-    oks = [t for _, _, t in ok_returns(fa) if is_agg(agg_field(t, "0"), "Right")]
-    ctx.check(P, rule, "the offset returned is the accumulated one", bool(oks) and all(nm(acc) and "cycle" in term_str(agg_field(agg_field(t, "0"), "0")) or "length" in term_str(agg_field(agg_field(t, "0"), "0")) for t in oks),
-              "Ok(Right(offset))", "byte_offset_from_nodes returns %s" % [term_str(t)[:80] for t in oks], key="C01|C01.R10|byte_offset_from_nodes|result")
-
     # byte_range puts the two together: length of the leaf itself, offset from byte_offset_from_nodes, same leaf
     BR = "tree::merkle_tree::MerkleTree::byte_range"
     fb = ctx.fn(BR)
     if need(ctx, P, rule, BR, fb):
         rq, bo = sites(fb, "tree::merkle_tree::MerkleTree::required_node"), sites(fb, FN)
         ws = {p_: fb.origin_rvalue(fb.blocks[b_].stmts[si_]["rv"], b_, si_) for b_, si_, p_ in assign_sites_prefix(fb, "~NodeByteRange")}
+        if not ws:
+            # the range built in one piece: NodeByteRange { index: offset, length } in the Ok(Right(..)) result
+            for _, _, t_ in ok_returns(fb):
+                r_ = agg_field(agg_field(t_, "0"), "0") if is_agg(agg_field(t_, "0"), "Right") else None
+                if r_ is not None and is_agg(r_):
+                    for f_ in ("index", "length"):
+                        v_ = agg_field(r_, f_)
+                        if v_ is not None:
+                            ws["~NodeByteRange." + f_] = v_
         good = len(rq) == 1 and len(bo) == 1
         if good:
             leaf = strip(fb.arg_origin(rq[0], 1))
             good = term_has_call(leaf, "tree::merkle_tree::MerkleTree::validate_hypercore_index") is not None and strip(leaf[3][1]) == ("param", "hypercore_index") if leaf[0] == "call" else False
             good = good and term_sig(strip(fb.arg_origin(bo[0], 1))) == term_sig(leaf)
             ln, ix = ws.get("~NodeByteRange.length"), ws.get("~NodeByteRange.index")
-            good = good and ln is not None and ix is not None and term_has_call(ln, "tree::merkle_tree::MerkleTree::required_node") == rq[0] and term_sig(strip(ln)).endswith(".length") and term_has_call(ix, FN) == bo[0]
+            def real(t_):
+                # the alternatives of a value that are not the literal placeholder 0 of the "instructions pending" case
+                return [r_ for r_ in (t_[1] if t_[0] == "join" else (t_,)) if not term_is_lit(r_, 0)] if t_ is not None else []
+            good = good and len(real(ln)) == 1 and len(real(ix)) == 1 and term_has_call(real(ln)[0], "tree::merkle_tree::MerkleTree::required_node") == rq[0] and term_sig(strip(real(ln)[0])).endswith(".length") and term_has_call(real(ix)[0], FN) == bo[0]
         ctx.check(P, rule, "byte_range = (offset of the leaf, length of the leaf), both for the validated index", good, "length = required_node(leaf).length, index = byte_offset_from_nodes(leaf)",
                   "byte_range assembles %s" % {k: term_str(v)[:70] for k, v in ws.items()}, key="C01|C01.R10|byte_range|assembly")
 
